@@ -1058,4 +1058,366 @@ theorem sound (i : Input) : holdsOn i (model i) = true := by
     exact ⟨fun x hx => (hmem x).mp hx, fun x hx => (hmem x).mpr hx⟩
 
 
+
+/-! ### malformed version clauses -/
+
+def headIs (p : Char → Bool) (s : Str) : Bool := headP p s
+
+theorem countRuns_true (p : Char → Bool) (cs : Str) :
+    countRuns p cs true + (if headP p cs then 1 else 0) = countRuns p cs false := by
+  cases cs with
+  | nil => simp [countRuns, headP]
+  | cons c cs =>
+    by_cases hc : p c = true
+    · simp [countRuns, headP, hc]; omega
+    · simp [countRuns, headP, hc]
+
+def allOp (t : Str) : Bool := t.all isOpChar
+
+def hdOp : List Str → Bool
+  | [] => false
+  | r :: _ => allOp r
+
+/-- every run is non-empty and homogeneous, and its characters come from the text -/
+theorem opRuns_homog (v : Str) : ∀ r ∈ opRuns v, r ≠ [] ∧ (∀ c ∈ r, ∀ d ∈ r, isOpChar c = isOpChar d) ∧ ∀ c ∈ r, c ∈ v := by
+  induction v with
+  | nil => intro r hr; simp [opRuns] at hr
+  | cons c cs ih =>
+    intro r hr
+    unfold opRuns at hr
+    cases ho : opRuns cs with
+    | nil =>
+      rw [ho] at hr
+      simp only [List.mem_singleton] at hr
+      subst hr
+      exact ⟨by simp, by intro a ha b hb; simp at ha hb; rw [ha, hb], by intro a ha; simp at ha; simp [ha]⟩
+    | cons r0 rs =>
+      rw [ho] at hr ih
+      have ih0 := ih r0 (by simp)
+      cases hr0 : r0 with
+      | nil => exact absurd hr0 ih0.1
+      | cons d ds =>
+        rw [hr0] at hr ih0
+        simp only at hr
+        split at hr
+        · rename_i hsame
+          simp only [List.mem_cons] at hr
+          rcases hr with rfl | hr
+          · refine ⟨by simp, ?_, ?_⟩
+            · intro a ha b hb
+              have key : ∀ x ∈ c :: d :: ds, isOpChar x = isOpChar d := by
+                intro x hx
+                rcases List.mem_cons.mp hx with rfl | hx
+                · exact hsame
+                · exact ih0.2.1 x hx d (by simp)
+              rw [key a ha, key b hb]
+            · intro a ha
+              rcases List.mem_cons.mp ha with rfl | ha
+              · simp
+              · exact List.mem_cons_of_mem _ (ih0.2.2 a ha)
+          · have := ih r (by simp [hr])
+            exact ⟨this.1, this.2.1, fun a ha => List.mem_cons_of_mem _ (this.2.2 a ha)⟩
+        · simp only [List.mem_cons] at hr
+          rcases hr with rfl | rfl | hr
+          · exact ⟨by simp, by intro a ha b hb; simp at ha hb; rw [ha, hb], by intro a ha; simp at ha; simp [ha]⟩
+          · exact ⟨by simp, ih0.2.1, fun a ha => List.mem_cons_of_mem _ (ih0.2.2 a ha)⟩
+          · have := ih r (by simp [hr])
+            exact ⟨this.1, this.2.1, fun a ha => List.mem_cons_of_mem _ (this.2.2 a ha)⟩
+
+theorem opRuns_cons_ne_nil (c : Char) (cs : Str) : opRuns (c :: cs) ≠ [] := by
+  unfold opRuns
+  cases opRuns cs with
+  | nil => simp
+  | cons r rs =>
+    cases r with
+    | nil => simp
+    | cons d ds => simp only; split <;> simp
+
+/-- the number of operator runs is the number of operators counted by the specification -/
+theorem opRuns_count (v : Str) : (opRuns v).countP allOp = countRuns isOpChar v false ∧
+    (hdOp (opRuns v) = headP isOpChar v) := by
+  induction v with
+  | nil => simp [opRuns, countRuns, headP, hdOp]
+  | cons c cs ih =>
+    obtain ⟨ihc, ihh⟩ := ih
+    have hct := countRuns_true isOpChar cs
+    unfold opRuns
+    cases ho : opRuns cs with
+    | nil =>
+      rw [ho] at ihc ihh
+      have hcs : cs = [] := by
+        cases cs with
+        | nil => rfl
+        | cons x xs => exact absurd ho (opRuns_cons_ne_nil x xs)
+      subst hcs
+      by_cases hc : isOpChar c = true <;> simp [countRuns, headP, allOp, hdOp, hc]
+    | cons r0 rs =>
+      rw [ho] at ihc ihh
+      have h0 := opRuns_homog cs r0 (by rw [ho]; simp)
+      cases hr0 : r0 with
+      | nil => exact absurd hr0 h0.1
+      | cons d ds =>
+        rw [hr0] at ihc ihh h0
+        -- the head of the text is the head of the first run
+        have hhead : headP isOpChar cs = isOpChar d := by
+          have : allOp (d :: ds) = isOpChar d := by
+            simp only [allOp, List.all_cons]
+            cases hd : isOpChar d with
+            | false => simp
+            | true =>
+              simp only [Bool.true_and, List.all_eq_true]
+              intro x hx
+              rw [h0.2.1 x (List.mem_cons_of_mem _ hx) d (by simp)]; exact hd
+          simp only [hdOp] at ihh
+          rw [← ihh, this]
+        simp only
+        split
+        · rename_i hsame
+          have hall : allOp (c :: d :: ds) = allOp (d :: ds) := by
+            simp only [allOp, List.all_cons, hsame]
+            cases isOpChar d <;> simp
+          refine ⟨?_, ?_⟩
+          · simp only [List.countP_cons, hall] at ihc ⊢
+            rw [ihc]
+            by_cases hc : isOpChar c = true
+            · have hd : isOpChar d = true := by rw [← hsame]; exact hc
+              simp only [countRuns, hc, if_true, Bool.false_eq_true, if_false]
+              rw [hhead, hd] at hct
+              simp only [if_true] at hct
+              omega
+            · simp [countRuns, hc]
+          · simp only [hdOp, headP, hall]
+            have : allOp (d :: ds) = isOpChar d := by
+              simp only [hdOp] at ihh; rw [ihh]; exact hhead
+            rw [this, hsame]
+        · rename_i hdiff
+          have hsingle : allOp [c] = isOpChar c := by simp [allOp]
+          refine ⟨?_, by simp [hdOp, headP, hsingle]⟩
+          simp only [List.countP_cons, hsingle] at ihc ⊢
+          by_cases hc : isOpChar c = true
+          · have hd : isOpChar d = false := by
+              cases hd' : isOpChar d with
+              | false => rfl
+              | true => exact absurd (by rw [hc, hd']) hdiff
+            simp only [countRuns, hc, if_true, Bool.false_eq_true, if_false]
+            rw [hhead, hd] at hct
+            simp only [Bool.false_eq_true, if_false] at hct
+            omega
+          · simp only [countRuns, hc, Bool.false_eq_true, if_false]
+            omega
+
+
+theorem strip_op_run (r : Str) (h : ∀ c ∈ r, isOpChar c = true) : strip r = r :=
+  Proofs.VersionPrint.strip_id (fun c hc => opChars_not_space c (h c hc))
+
+theorem strip_subset (r : Str) : ∀ c ∈ strip r, c ∈ r := by
+  intro c hc
+  exact lstrip_subset r c (rstrip_subset _ c hc)
+
+theorem run_class (v r : Str) (hr : r ∈ opRuns v) : (∀ c ∈ r, isOpChar c = true) ∨ (∀ c ∈ r, isOpChar c = false) := by
+  obtain ⟨hne, hh, _⟩ := opRuns_homog v r hr
+  cases r with
+  | nil => exact absurd rfl hne
+  | cons d ds =>
+    cases hd : isOpChar d with
+    | true => left; intro c hc; rw [hh c hc d (by simp)]; exact hd
+    | false => right; intro c hc; rw [hh c hc d (by simp)]; exact hd
+
+theorem tokens_count (v : Str) : (opTokens v).countP allOp = (opRuns v).countP allOp := by
+  unfold opTokens
+  have key : ∀ rs : List Str, (∀ r ∈ rs, r ≠ [] ∧ ((∀ c ∈ r, isOpChar c = true) ∨ (∀ c ∈ r, isOpChar c = false))) →
+      ((rs.map strip).filter (!·.isEmpty)).countP allOp = rs.countP allOp := by
+    intro rs
+    induction rs with
+    | nil => intro _; rfl
+    | cons r rs ih =>
+      intro h
+      have ihh := ih (fun x hx => h x (by simp [hx]))
+      obtain ⟨hne, hcl⟩ := h r (by simp)
+      simp only [List.map_cons, List.countP_cons]
+      rcases hcl with hop | hnop
+      · have hs := strip_op_run r hop
+        have hie : r.isEmpty = false := by cases r <;> simp_all
+        have ha : allOp r = true := List.all_eq_true.mpr hop
+        simp only [List.filter_cons, hs, hie, Bool.not_false, if_true, List.countP_cons, ha, ihh]
+      · have hna : allOp r = false := by
+          cases r with
+          | nil => exact absurd rfl hne
+          | cons d ds => simp [allOp, hnop d (by simp)]
+        by_cases hse : (strip r).isEmpty = true
+        · simp only [List.filter_cons, hse, Bool.not_true, Bool.false_eq_true, if_false, hna, ihh]
+          simp
+        · have hse' : (strip r).isEmpty = false := by simpa using hse
+          have hna2 : allOp (strip r) = false := by
+            cases hsr : strip r with
+            | nil => rw [hsr] at hse'; simp at hse'
+            | cons d ds =>
+              have : d ∈ r := strip_subset r d (by rw [hsr]; simp)
+              simp [allOp, hnop d this]
+          simp only [List.filter_cons, hse', Bool.not_false, if_true, List.countP_cons, hna2, hna, ihh]
+  apply key
+  intro r hr
+  exact ⟨(opRuns_homog v r hr).1, run_class v r hr⟩
+
+theorem tokens_all_op (v : Str) (h : hasOperand v = false) : ∀ t ∈ opTokens v, allOp t = true := by
+  intro t ht
+  simp only [opTokens, List.mem_filter, List.mem_map, Bool.not_eq_true'] at ht
+  obtain ⟨⟨r, hr, rfl⟩, hne⟩ := ht
+  rcases run_class v r hr with hop | hnop
+  · rw [strip_op_run r hop]; exact List.all_eq_true.mpr hop
+  · -- a run of non-operator characters without operand is blank
+    exfalso
+    have hall : ∀ c ∈ r, isSpace c = true := by
+      intro c hc
+      have hcv : c ∈ v := (opRuns_homog v r hr).2.2 c hc
+      simp only [hasOperand, List.any_eq_false, Bool.and_eq_true, Bool.not_eq_true', not_and] at h
+      have := h c hcv (hnop c hc)
+      simpa using this
+    have : strip r = [] := by
+      have hb : isBlank r = true := List.all_eq_true.mpr hall
+      unfold strip
+      apply (rstrip_eq_nil_iff _).mpr
+      rw [isBlank_lstrip]; exact hb
+    rw [this] at hne; simp at hne
+
+/-- **a malformed clause is rejected** by the final step of `parse_relationship` -/
+theorem finish_bad (name v : Str) (archs : List Str) (h : badClause v = true) :
+    finish name (some v) archs = .error .valueError := by
+  have hcount : (opTokens v).countP allOp = nOperators v := by
+    rw [tokens_count, (opRuns_count v).1]; rfl
+  unfold finish
+  simp only
+  cases ht : opTokens v with
+  | nil => rfl
+  | cons a rest =>
+    cases rest with
+    | nil => rfl
+    | cons b rest2 =>
+      cases rest2 with
+      | cons c r3 => rfl
+      | nil =>
+        simp only
+        have hfl : ([a, b].filter fun t => t.all isOpChar).length = nOperators v := by
+          rw [← hcount, ht, List.countP_eq_length_filter]; rfl
+        simp only [badClause, Bool.or_eq_true, decide_eq_true_eq, Bool.not_eq_true'] at h
+        rcases h with (h0 | hno) | h2
+        · rw [hfl, h0]; simp
+        · have ha := tokens_all_op v hno a (by rw [ht]; simp)
+          have hb := tokens_all_op v hno b (by rw [ht]; simp)
+          simp only [allOp] at ha hb
+          simp [List.filter, ha, hb]
+        · rw [hfl]
+          have : ¬ nOperators v = 1 := by omega
+          simp [this]
+
+
+theorem mem_chars_of_all {p : Char → Bool} {s : Str} (h : s.all p = true) : ∀ c ∈ s, p c = true :=
+  List.all_eq_true.mp h
+
+/-- **the malformed clause**: the whole expression is rejected with ValueError -/
+theorem parseDepends_bad (i : InputE) (h : wfE i = true) :
+    parseDepends (i.name ++ " (".toList ++ i.clause ++ [')']) = .error .valueError := by
+  simp only [wfE, Bool.and_eq_true, Bool.not_eq_true'] at h
+  obtain ⟨⟨⟨⟨hname, hce⟩, hcb⟩, hcc⟩, hbad⟩ := h
+  simp only [nameOk, Bool.and_eq_true, Bool.not_eq_true'] at hname
+  obtain ⟨hnE, hnC⟩ := hname
+  have hnC' := mem_chars_of_all hnC
+  have hcC' := mem_chars_of_all hcc
+  have hnfacts : ∀ c ∈ i.name, isSpace c = false ∧ c ≠ '(' ∧ c ≠ '[' ∧ c ≠ ',' ∧ c ≠ '|' := by
+    intro c hc
+    have := hnC' c hc
+    simp only [Bool.and_eq_true, Bool.not_eq_true', bne_iff_ne] at this
+    obtain ⟨⟨⟨⟨a, b⟩, c'⟩, d⟩, e⟩ := this
+    exact ⟨a, b, c', d, e⟩
+  have hcfacts : ∀ c ∈ i.clause, c ≠ ')' ∧ c ≠ ',' ∧ c ≠ '|' := by
+    intro c hc
+    have := hcC' c hc
+    simp only [Bool.and_eq_true, bne_iff_ne] at this
+    exact ⟨this.1.1, this.1.2, this.2⟩
+  obtain ⟨n0, ns, hn⟩ : ∃ a b, i.name = a :: b := by
+    cases hh : i.name with
+    | nil => rw [hh] at hnE; simp at hnE
+    | cons a b => exact ⟨a, b, rfl⟩
+  let e : Str := i.name ++ " (".toList ++ i.clause ++ [')']
+  have he : e = i.name ++ (' ' :: '(' :: (i.clause ++ [')'])) := by
+    simp [e, List.append_assoc]
+  -- no separator of either kind
+  have hnocomma : ',' ∉ e := by
+    rw [he]
+    intro hm
+    simp only [List.mem_append, List.mem_cons, List.not_mem_nil, or_false] at hm
+    rcases hm with hm | hm | hm | hm | hm
+    · exact (hnfacts _ hm).2.2.2.1 rfl
+    · cases hm
+    · cases hm
+    · exact (hcfacts _ hm).2.1 rfl
+    · cases hm
+  have hnobar : '|' ∉ e := by
+    rw [he]
+    intro hm
+    simp only [List.mem_append, List.mem_cons, List.not_mem_nil, or_false] at hm
+    rcases hm with hm | hm | hm | hm | hm
+    · exact (hnfacts _ hm).2.2.2.2 rfl
+    · cases hm
+    · cases hm
+    · exact (hcfacts _ hm).2.2 rfl
+    · cases hm
+  -- stripping changes nothing
+  have hstrip : strip e = e := by
+    have hh : headP isSpace e = false := by
+      rw [he, hn]; simp only [List.cons_append, headP]
+      exact (hnfacts n0 (by rw [hn]; simp)).1
+    have hl : lastP (fun c => !isSpace c) e = true := by
+      have : e = (i.name ++ " (".toList ++ i.clause) ++ [')'] := rfl
+      rw [this, lastP_append_cons, lastP_single]; decide
+    unfold strip
+    rw [lstrip_of_head hh, rstrip_of_last _ hl]
+  have hene : e.isEmpty = false := by rw [he, hn]; rfl
+  have hsplit : splitStripNonEmpty ',' e = [e] := by
+    unfold splitStripNonEmpty
+    rw [splitChar_not_mem ',' e hnocomma]
+    simp [hstrip, hene]
+  have hcont : e.contains '|' = false := by
+    cases hc : e.contains '|' with
+    | false => rfl
+    | true => exact absurd (List.contains_iff_mem.mp hc) hnobar
+  -- the single relationship
+  have hrel : parseRelationship e = .error .valueError := by
+    rw [parseRelationship_eq]
+    have hnm : ∀ c ∈ i.name, (fun c => !notName c) c = true := by
+      intro c hc
+      obtain ⟨h1, h2, h3, _, _⟩ := hnfacts c hc
+      have h4 : c ≠ ' ' := by intro e'; subst e'; rw [sp_space'] at h1; cases h1
+      simp [notName, h2, h3, h4]
+    have hr : headP (fun c => !notName c) (' ' :: '(' :: (i.clause ++ [')'])) = false := by
+      simp [headP, notName]
+    obtain ⟨ht, hd⟩ := takeDrop_append (fun c => !notName c) i.name _ hnm hr
+    rw [← he] at ht hd
+    rw [ht, hd]
+    have hnie : i.name.isEmpty = false := by rw [hn]; rfl
+    simp only [hnie, Bool.false_eq_true, if_false]
+    have hds : dropWhileC isSpace (' ' :: '(' :: (i.clause ++ [')'])) = '(' :: (i.clause ++ ')' :: []) := by
+      have := dropWhile_spaces [' '] ('(' :: (i.clause ++ [')'])) (by intro c hc; simp at hc; subst hc; decide) (by simp [headP]; decide)
+      simpa using this
+    rw [hds]
+    have hcne : i.clause ≠ [] := by intro e'; rw [e'] at hce; simp at hce
+    have hnp : ')' ∉ i.clause := fun hm => (hcfacts _ hm).1 rfl
+    rw [bracketed_ok '(' ')' i.clause [] hcne hnp]
+    exact finish_bad _ _ _ hbad
+  show parseDepends e = _
+  unfold parseDepends
+  rw [hsplit]
+  simp only [mapExcept, parseAlternatives, hcont, Bool.false_eq_true, if_false, hrel]
+
+/-- **C14, the malformed-clause clause**: for every relationship whose bracketed clause has no comparison
+operator, nothing but an operator, or more than one operator, `parse_depends` raises ValueError. -/
+theorem soundE (i : InputE) : holdsOnE i (modelE i) = true := by
+  unfold holdsOnE
+  cases h : wfE i with
+  | false => rfl
+  | true =>
+    simp only [Bool.not_true, Bool.false_or, modelE, parseDepends_bad i h]
+    rfl
+
+
 end Props.C14
